@@ -5,6 +5,7 @@ import Mathlib.Algebra.Order.Field.Rat
 import Mathlib.Algebra.Order.AbsoluteValue.Basic
 import Mathlib.Analysis.Matrix.PosDef
 import Mathlib.Analysis.Matrix.Spectrum
+import Mathlib.Algebra.BigOperators.Fin
 import Mathlib.LinearAlgebra.Eigenspace.Matrix
 /-!
 # C01 — helper lemmas: numpy closeness as an absolute-value inequality, monotonicity in `atol`,
@@ -706,5 +707,55 @@ theorem scalarMat_trace (d : Nat) (c : Rat) : (scalarMat d c).trace = some ((d :
     simp [e1, e2]
 
 
+
+/-! ## exact Hermiticity and trace: helpers -/
+section bridge2
+open Matrix
+theorem adjoint_eq (M : CMat) (hok : M.ok = true) :
+    M.adjoint = some ((List.range (M.d * M.d)).map fun k =>
+      ((M.e.getD ((k % M.d) * M.d + k / M.d) (0, 0)).1, -(M.e.getD ((k % M.d) * M.d + k / M.d) (0, 0)).2)) := by
+  have hlen : M.e.length = M.d * M.d := by simpa [CMat.ok] using hok
+  unfold CMat.adjoint
+  apply mapM_some_map
+  intro k hk
+  rw [List.mem_range] at hk
+  have hd : 0 < M.d := Nat.pos_of_ne_zero (by rintro h; rw [h] at hk; simp at hk)
+  have hq : k / M.d < M.d := Nat.div_lt_of_lt_mul (by simpa [Nat.mul_comm] using hk)
+  have hrm : k % M.d < M.d := Nat.mod_lt _ hd
+  have hidx : k % M.d * M.d + k / M.d < M.e.length := by
+    rw [hlen]
+    calc k % M.d * M.d + k / M.d < k % M.d * M.d + M.d := by omega
+      _ = (k % M.d + 1) * M.d := by ring
+      _ ≤ M.d * M.d := Nat.mul_le_mul_right _ hrm
+  simp [List.getD_eq_getElem?_getD, List.getElem?_eq_getElem hidx]
+
+theorem closeCC_zero_iff (a b : C) : isCloseCC a b 0 0 = some true ↔ a = b := by
+  unfold isCloseCC
+  simp only [↓reduceIte, le_refl, decide_true, Bool.true_and, mul_zero, Option.some.injEq, decide_eq_true_eq]
+  constructor
+  · intro h
+    have h1 : (a.1 - b.1) * (a.1 - b.1) = 0 := by nlinarith [mul_self_nonneg (a.1 - b.1), mul_self_nonneg (a.2 - b.2)]
+    have h2 : (a.2 - b.2) * (a.2 - b.2) = 0 := by nlinarith [mul_self_nonneg (a.1 - b.1), mul_self_nonneg (a.2 - b.2)]
+    have e1 : a.1 = b.1 := by have := mul_self_eq_zero.1 h1; linarith
+    have e2 : a.2 = b.2 := by have := mul_self_eq_zero.1 h2; linarith
+    exact Prod.ext e1 e2
+  · intro h; subst h; simp
+
+theorem list_range_sum_fin (n : Nat) (f : Nat → ℂ) : ((List.range n).map f).sum = ∑ i : Fin n, f i.val := by
+  induction n with
+  | zero => simp
+  | succ n ih => rw [List.range_succ, List.map_append, List.sum_append, ih, Fin.sum_univ_castSucc]; simp
+
+theorem toC_add (a b : C) : toC (a.1 + b.1, a.2 + b.2) = toC a + toC b := by
+  unfold toC; push_cast; ring
+
+theorem toC_sum (l : List C) : toC ((l.map (·.1)).sum, (l.map (·.2)).sum) = (l.map toC).sum := by
+  induction l with
+  | nil => simp [toC]
+  | cons x l ih =>
+    simp only [List.map_cons, List.sum_cons]
+    rw [← ih, ← toC_add]
+
+end bridge2
 
 end QM.C01
